@@ -575,6 +575,38 @@ func vC07GoOracle(outcome string, resp *dns.Msg, err error, req *dns.Msg, dgs []
 	return ""
 }
 
+// vC07RunScript runs the real Conn.Exchange for req over a scripted connection and emits the case
+func vC07RunScript(stream bool, req *dns.Msg, rq *vC07Q, rqCoq string, dgs []vC07Dg, tags []string, proto string, emit func(map[string]any)) {
+	var reads [][]byte
+	var cd []string
+	for i, d := range dgs {
+		reads = append(reads, d.wire(i, req.Id))
+		cd = append(cd, d.coq())
+	}
+	var resp *dns.Msg
+	var xerr error
+	var last int
+	if stream {
+		sc := &vC07Stream{vC07Script: vC07Script{reads: reads}}
+		co := &Conn{Conn: sc}
+		resp, _, xerr = co.Exchange(req)
+		last = sc.idx - 1
+	} else {
+		pc := &vC07Packet{vC07Script{reads: reads}}
+		co := &Conn{Conn: pc}
+		resp, _, xerr = co.Exchange(req)
+		last = pc.idx - 1
+	}
+	out, ok := vC07Outcome(resp, xerr, last)
+	emit(map[string]any{
+		"k":          "xchg-" + proto + "-" + ok,
+		"coq":        fmt.Sprintf("CaseExchange %v %d %s [%s] %s", stream, req.Id, rqCoq, strings.Join(cd, ";"), out),
+		"nontrivial": len(dgs) > 1,
+		"go_fail":    vC07GoOracle(out, resp, xerr, req, dgs),
+		"desc":       map[string]any{"proto": proto, "req_id": req.Id, "req_q": fmt.Sprint(rq), "script": tags, "outcome": out, "err": fmt.Sprint(xerr)},
+	})
+}
+
 func TestVerifC07Client(t *testing.T) {
 	p := os.Getenv("VERIF_OUT")
 	if p == "" {
@@ -591,6 +623,9 @@ func TestVerifC07Client(t *testing.T) {
 		b, _ := json.Marshal(m)
 		f.Write(append(b, '\n'))
 	}
+
+	// --- fixed regression scripts (corpus/C07/exchange.json), replayed first --------
+	vC07ClientCorpus(emit)
 
 	// --- QuestionMatches -------------------------------------------------------
 	for c := 0; c < n/2; c++ {
@@ -653,27 +688,6 @@ func TestVerifC07Client(t *testing.T) {
 		if burst {
 			dgs, tags = vC07GenBurst(r, req.Id, rq)
 		}
-		var reads [][]byte
-		var cd []string
-		for i, d := range dgs {
-			reads = append(reads, d.wire(i, req.Id))
-			cd = append(cd, d.coq())
-		}
-		var resp *dns.Msg
-		var xerr error
-		var last int
-		if stream {
-			sc := &vC07Stream{vC07Script: vC07Script{reads: reads}}
-			co := &Conn{Conn: sc}
-			resp, _, xerr = co.Exchange(req)
-			last = sc.idx - 1
-		} else {
-			pc := &vC07Packet{vC07Script{reads: reads}}
-			co := &Conn{Conn: pc}
-			resp, _, xerr = co.Exchange(req)
-			last = pc.idx - 1
-		}
-		out, ok := vC07Outcome(resp, xerr, last)
 		proto := "udp"
 		if stream {
 			proto = "stream"
@@ -681,13 +695,7 @@ func TestVerifC07Client(t *testing.T) {
 		if burst {
 			proto += "-burst"
 		}
-		emit(map[string]any{
-			"k":          "xchg-" + proto + "-" + ok,
-			"coq":        fmt.Sprintf("CaseExchange %v %d %s [%s] %s", stream, req.Id, rqCoq, strings.Join(cd, ";"), out),
-			"nontrivial": len(dgs) > 1,
-			"go_fail":    vC07GoOracle(out, resp, xerr, req, dgs),
-			"desc":       map[string]any{"proto": proto, "req_id": req.Id, "req_q": fmt.Sprint(rq), "script": tags, "outcome": out, "err": fmt.Sprint(xerr)},
-		})
+		vC07RunScript(stream, req, rq, rqCoq, dgs, tags, proto, emit)
 	}
 
 	// --- Conn.Exchange over a real UDP socket pair on loopback -------------------
